@@ -671,6 +671,17 @@ func (fr *Frame) instrModifies(ins ssa.Instruction, set map[string]bool) {
 		fr.mapKeys(x.Type(), set)
 	case *ssa.MapUpdate:
 		fr.mapKeys(x.Map.Type(), set)
+	case *ssa.Next:
+		// the ghost iteration state of a map range (visited keys, their number) changes at every Next
+		if r, ok := x.Iter.(*ssa.Range); ok {
+			if mt, ok := r.X.Type().Underlying().(*types.Map); ok {
+				vk := "ITER:" + fr.fn.String() + ":" + r.Name()
+				nk := "ITERN:" + fr.fn.String() + ":" + r.Name()
+				vc.compSort[vk] = "(Array " + vc.sortOf(mt.Key()) + " Bool)"
+				vc.compSort[nk] = "Int"
+				set[vk], set[nk] = true, true
+			}
+		}
 	case *ssa.Call:
 		fr.callModifies(&x.Call, set)
 	case *ssa.Defer:
@@ -1026,6 +1037,7 @@ func (fr *Frame) step(ins ssa.Instruction, st *State, edges map[edgeKey]*State) 
 			vk := "ITER:" + fr.fn.String() + ":" + x.Name()
 			vs := "(Array " + vc.sortOf(mt.Key()) + " Bool)"
 			vc.setComp(st, vk, vs, app("(as const "+vs+")", tFalse))
+			vc.setComp(st, "ITERN:"+fr.fn.String()+":"+x.Name(), "Int", leaf("0"))
 		}
 		return true
 	case *ssa.Next:
@@ -1714,6 +1726,14 @@ func (fr *Frame) nextOp(x *ssa.Next, st *State) {
 	vc.assume(st.guard, mkImplies(mkNot(ok), leaf(fmt.Sprintf("(forall ((%s %s)) (=> %s (select %s %s)))", qk, vc.sortOf(mt.Key()),
 		mkAnd(mkNot(mkEq(m, leaf("0"))), app("select", mkSelect(vc.comp(st, kd, sd), m), leaf(qk))), vis, qk))))
 	vc.setComp(st, vk, vs, vc.name("vis", vs, mkIte(ok, app("store", vis, k, tTrue), vis)))
+	// number of keys visited so far ($k in invariants of map loops): the iteration delivers exactly len(m) keys
+	// (Go semantics for a map that is not modified while it is iterated)
+	nk := "ITERN:" + fr.fn.String() + ":" + r.Name()
+	cnt := vc.comp(st, nk, "Int")
+	size := mkIte(mkEq(m, leaf("0")), leaf("0"), mkSelect(vc.comp(st, "MS", "(Array Int Int)"), m))
+	vc.assume(st.guard, mkAnd(app("<=", leaf("0"), cnt), mkIte(ok, app("<", cnt, size), mkEq(cnt, size))))
+	vc.setComp(st, nk, "Int", vc.name("visn", "Int", mkIte(ok, app("+", cnt, leaf("1")), cnt)))
+	vc.assumptions["range over a map visits each of its len(m) keys exactly once (the map is not modified during the iteration)"] = true
 	fr.tuples[x] = []*Term{ok, k, v}
 }
 
